@@ -238,7 +238,12 @@ func sortedSchemaKeys(m map[schema.SchemaKey]*schema.BodySchema) []schema.Schema
 }
 
 func decodeSchemaKey(key schema.SchemaKey) (schema.DependencyKeys, error) {
-	var dk schema.DependencyKeys
+	// Only the label dependencies are decoded. The attribute dependencies of
+	// a key are marshalled cty values / addresses which cannot be unmarshalled
+	// back, and decoding them would fail for the whole key.
+	var dk struct {
+		Labels []schema.LabelDependent `json:"labels,omitempty"`
+	}
 	err := json.Unmarshal([]byte(key), &dk)
-	return dk, err
+	return schema.DependencyKeys{Labels: dk.Labels}, err
 }
